@@ -4,6 +4,7 @@ mod compile;
 mod enginek;
 mod enginex;
 mod fungen;
+mod isatest;
 mod funref;
 mod mach;
 mod minimize;
@@ -46,13 +47,15 @@ fn real_main() -> i32 {
             let p = |i: usize| args[i].parse::<u64>().unwrap_or(0);
             enginek::kworker(&args[2], p(3), p(4), p(5))
         }
+        Some("isatest") => isatest::run_all(),
         Some("selftest") => enginex::selftest(args.get(2).and_then(|s| s.parse().ok()).unwrap_or(200)),
         Some("pipestat") => {
             let n: u64 = args.get(2).and_then(|s| s.parse().ok()).unwrap_or(200);
             let mut errs = std::collections::BTreeMap::<String, u64>::new();
             for i in 0..n {
                 let mut rng = prng::Rng::keyed(1, i, "pipe");
-                if let Some(sc) = workloads::make_pipe(&mut rng, false, 60) {
+                let size: usize = std::env::var("PIPE_SIZE").ok().and_then(|s| s.parse().ok()).unwrap_or(60);
+                if let Some(sc) = workloads::make_pipe(&mut rng, i % 2 == 1, size) {
                     match refm::check_prog(&sc.prog) {
                         Ok(_) => *errs.entry("ok".into()).or_default() += 1,
                         Err(e) => {
